@@ -307,3 +307,9 @@ def check(ctx) -> None:
     from . import c15
 
     c15.rule_rg1_rg2(ctx, "C14-S5", "C14-S5")
+    # S7: rows are never removed because their text equals another row's text: which of two equivalent reactions
+    # survives would depend on how they are spelled (shared with C05-P1, de-duplication part)
+    from ..pipeline import Pipeline
+    from . import c05
+
+    c05.rule_p1(ctx, Pipeline(ctx), "C14-S7", only_duplicates=True)
